@@ -210,8 +210,8 @@ def rule_nested_scan(chk, prog):
   loc = (f.file, f.lineno)
   P = {n: sym_(n) for n in f.param_names()}
   pn = f.param_names()
-  chk.require(len(pn) == 6, f'{site}: signature changed: {pn}')
-  fP, initP, xsP, lenP, scanP, ckP = [P[n] for n in pn]
+  chk.require(len(pn) >= 6, f'{site}: signature changed: {pn}')
+  fP, initP, xsP, lenP, scanP, ckP = [P[n] for n in pn[:6]]   # further (optional) parameters do not concern the recursion
   if not chk.check(v.k == 'phi', rule, f'{site}: has a base case and a recursive case', sym.show(v)[:200], loc):
     return
   c, base, rec = v.a
@@ -242,7 +242,7 @@ def rule_nested_scan(chk, prog):
     lp = [sym_(n) for n in lfi.param_names()]
     want_args = [fP, lp[0], lp[1], Term('sub', lenP, Term('slice', sym.const(1), sym.NONE, sym.NONE)), scanP, ckP]
     got = ev.bind_args(f, list(sb.a[1]), list(sb.a[2]), None, None) if sb.k == 'call' and util.callee_qual(sb).endswith('_inner_nested_scan') else None
-    ok = got is not None and [got[n] for n in pn] == want_args
+    ok = got is not None and [got[n] for n in pn[:6]] == want_args
     chk.check(ok, rule, f'{site}: sub_scans(carry, xs) recurses on lengths[1:] with the same f, scan_fn, checkpoint_fn and its own carry/xs (well-founded, length-preserving)',
               sym.show(sb)[:240], sb.loc or loc, '_inner_nested_scan(f, carry, xs, lengths[1:], scan_fn, checkpoint_fn)', sym.show(sb)[:240])
     # closure capture: only f, lengths, scan_fn, checkpoint_fn from the outer scope (nothing traced)
